@@ -236,6 +236,14 @@ func (b *Body) applyContract(v ssa.Value, con *FnContract, key string, sig *type
 		name += fmt.Sprintf("#%d", ft.count(name))
 		ft.oblige(&Obligation{Name: name, Kind: "pre", Tags: tags, Guard: reach, Goal: g, Src: r.Src, Pos: ft.pos(pos)})
 	}
+	for _, r := range con.Presumes {
+		if g, err := env.EvalBool(r.Expr); err == nil {
+			ft.fact(Imp(reach, g))
+			ft.trusted[key+" (presumes: "+r.Src+")"] = true
+		} else {
+			ft.shapeFail(r, fmt.Errorf("at call to %s: %v", key, err))
+		}
+	}
 	if con.Trusted || con.NoBody {
 		ft.trusted[key] = true
 	}
@@ -312,7 +320,7 @@ func (b *Body) applyContract(v ssa.Value, con *FnContract, key string, sig *type
 	}
 	post := b.calleeEnv(con, sig, c.IsInvoke(), args, st, pre)
 	b.bindResults(post, sig, res)
-	for _, e := range append(append([]*Clause{}, con.Ensures...), con.Assumes...) {
+	for _, e := range append(append(append([]*Clause{}, con.Ensures...), con.Assumes...), con.Given...) {
 		g, err := post.EvalBool(e.Expr)
 		if err != nil {
 			// a postcondition that speaks about locals of the callee is only
@@ -327,8 +335,8 @@ func (b *Body) applyContract(v ssa.Value, con *FnContract, key string, sig *type
 		}
 		ft.fact(Imp(reach, g))
 	}
-	if len(con.Assumes) > 0 {
-		ft.trusted[key+" (assumed clauses: "+fmt.Sprint(len(con.Assumes))+")"] = true
+	if len(con.Assumes)+len(con.Given) > 0 {
+		ft.trusted[key+" (assumed clauses: "+fmt.Sprint(len(con.Assumes)+len(con.Given))+")"] = true
 	}
 	// `records e n`: the caller's ghost e holds the error this call returned,
 	// n counts the calls (so that a caller's contract can speak about "the
@@ -793,6 +801,9 @@ func (b *Body) appendBuiltin(v ssa.Value, c *ssa.CallCommon, blk *ssa.BasicBlock
 	ft.fact(Forall([][2]string{{j, "Int"}}, Imp(And(A("<=", Int(0), L(j)), A("<", L(j), sl0)), Eq(Sel(na, L(j)), Sel(Sel(h, s.T), L(j)))), []*T{Sel(na, L(j))}))
 	k := fmt.Sprintf("j!%d", ft.count("qv"))
 	ft.fact(Forall([][2]string{{k, "Int"}}, Imp(And(A("<=", Int(0), L(k)), A("<", L(k), el)), Eq(Sel(na, A("+", sl0, L(k))), Sel(Sel(h, e.T), L(k)))), []*T{Sel(Sel(h, e.T), L(k))}))
+	// the same, triggered by a read of the result
+	m := fmt.Sprintf("j!%d", ft.count("qv"))
+	ft.fact(Forall([][2]string{{m, "Int"}}, Imp(And(A("<=", sl0, L(m)), A("<", L(m), A("+", sl0, el))), Eq(Sel(na, L(m)), Sel(Sel(h, e.T), A("-", L(m), sl0)))), []*T{Sel(na, L(m))}))
 	ft.setRegion(st, reg, Sto(h, ref, na))
 	// registered prefix sums are additive over concatenation (A-FOLD)
 	for _, sf := range ft.e.prelude.AppendSum[es] {
